@@ -46,8 +46,12 @@ func timeRunMain(args []string) int {
 	n := 0
 	for v := 0; v < 4 && !xHung; v++ {
 		n += tickerForced(tf, "gracefulEarly", v)
-		n += tickerForced(tf, "ctxBefore", v)
-		n += precisionForced(tf, "heldCallback", v)
+		if !xHung {
+			n += tickerForced(tf, "ctxBefore", v)
+		}
+		if !xHung {
+			n += precisionForced(tf, "heldCallback", v)
+		}
 	}
 	for v := 0; v < 12 && !xHung; v++ {
 		n += tickerForced(tf, "heldHandler", v)
@@ -434,6 +438,9 @@ func sleepFree(tf *traceFile, rd *rand.Rand, one bool) int {
 		if z == 3 {
 			d = 2000 * 1000 * 1000
 		}
+		if z == 1 { // a sleep of a few timer ticks (their resolution is about 1 ms here) that starts at once
+			d, st = 3000+rd.Intn(3000), 0
+		}
 		g.run(fmt.Sprintf("sleep%d", z), lg, func() {
 			time.Sleep(st)
 			lg.add(core.Ev{"op": "zb", "z": z, "d": d})
@@ -442,7 +449,7 @@ func sleepFree(tf *traceFile, rd *rand.Rand, one bool) int {
 		})
 	}
 	if !before {
-		delay := time.Duration(rd.Intn(4000)) * time.Microsecond
+		delay := time.Duration(rd.Intn(10000)) * time.Microsecond
 		g.run("cancel", lg, func() {
 			time.Sleep(delay)
 			doCancel()
